@@ -7,6 +7,7 @@ package main
 import (
 	"fmt"
 	"go/constant"
+	"go/types"
 	"sort"
 	"strings"
 
@@ -205,21 +206,46 @@ func (m *Model) RunEscape(s *Sink, rule string) {
 		key := fnKey(rs) + "|only backslash-quote is unescaped"
 		okRS := true
 		n := 0
-		for _, b := range rs.Blocks {
-			for _, in := range b.Instrs {
-				c, ok := in.(*ssa.Call)
-				if !ok || c.Call.StaticCallee() == nil {
-					continue
+		// the scanner and the string-to-string helpers of its package it hands the text to
+		scan := []*ssa.Function{rs}
+		seenScan := map[*ssa.Function]bool{rs: true}
+		for i := 0; i < len(scan) && i < 8; i++ {
+			for _, b := range scan[i].Blocks {
+				for _, in := range b.Instrs {
+					c, ok := in.(*ssa.Call)
+					if !ok || c.Call.StaticCallee() == nil {
+						continue
+					}
+					sc := c.Call.StaticCallee()
+					if seenScan[sc] || sc.Blocks == nil || shortPkg(fnPkgPath(sc)) != "lexer" || sc.Signature.Recv() != nil {
+						continue
+					}
+					res := sc.Signature.Results()
+					if res.Len() == 1 && isStringT(res.At(0).Type()) {
+						seenScan[sc] = true
+						scan = append(scan, sc)
+					}
 				}
-				name := fnFullName(c.Call.StaticCallee())
-				if strings.HasPrefix(name, "strings.Replace") {
-					n++
-					// old = "\\" + string(quote); new = string(quote)
-					if bo, ok := c.Call.Args[1].(*ssa.BinOp); !ok || !isBackslashConst(bo.X) {
+			}
+		}
+		for _, sf := range scan {
+			for _, b := range sf.Blocks {
+				for _, in := range b.Instrs {
+					c, ok := in.(*ssa.Call)
+					if !ok || c.Call.StaticCallee() == nil {
+						continue
+					}
+					name := fnFullName(c.Call.StaticCallee())
+					if strings.HasPrefix(name, "strings.Replace") {
+						n++
+						// old = "\\" + q; new = q (the quote character as a string)
+						bo, ok := c.Call.Args[1].(*ssa.BinOp)
+						if !ok || !isBackslashConst(bo.X) || !sameConverted(bo.Y, c.Call.Args[2]) {
+							okRS = false
+						}
+					} else if strings.HasPrefix(name, "strings.") || strings.HasPrefix(name, "html.") {
 						okRS = false
 					}
-				} else if strings.HasPrefix(name, "strings.") || strings.HasPrefix(name, "html.") {
-					okRS = false
 				}
 			}
 		}
@@ -229,6 +255,16 @@ func (m *Model) RunEscape(s *Sink, rule string) {
 			s.Violation(rule, key, m.Pos(rs.Pos()), "readString applies a transformation other than removing the backslash before the quote character: the literal's bytes no longer reach the evaluator unchanged")
 		}
 	}
+}
+
+// sameConverted: the same value, or two conversions of the same value to the same type (go/ssa does not share them).
+func sameConverted(a, b ssa.Value) bool {
+	if a == b {
+		return true
+	}
+	ca, okA := a.(*ssa.Convert)
+	cb, okB := b.(*ssa.Convert)
+	return okA && okB && ca.X == cb.X && types.Identical(ca.Type(), cb.Type())
 }
 
 func isBackslashConst(v ssa.Value) bool {
